@@ -62,11 +62,60 @@ def _f(out, clause, what, sig):
     out.append({"clause": clause, "what": what, "sig": sig})
 
 
+# ----------------------------------------------------------------------------- zero-length options
+# RFC 6891 6.1.2: OPTION-LENGTH may be 0; such an option still occupies its 4-octet header.
+# Codes whose payload is legitimately empty (RFC 5001 NSID request, RFC 6975 DAU/DHU/N3U with an
+# empty list, RFC 7314 EXPIRE and RFC 7828 KEEPALIVE in a query) and unassigned/local codes.
+# Codes the library decodes with a structured class that rejects an empty payload (ECS, COOKIE,
+# EDE, REPORTCHANNEL) and PADDING itself are left out, so the output stays parseable.
+_EMPTY_CODES = (3, 3, 5, 6, 7, 9, 11, 65001, 65534, 4, 26946)
+_EMPTY_PATTERNS = ("nsid", "empties", "mixed", "tail", "head")
+_SPECIAL_CODES = (8, 10, 12, 15, 18, 22, 23, 24, 25)
+_VARIANT_MIN, _VARIANT_MAX = 600, 1700  # octets of the unlimited rendering
+SIG_EMPTY_DROPPED = {
+    "site": "Renderer.add_opt",
+    "class": "OPT differs: the zero-length options are missing from the rendered OPT",
+}
+
+
+def _empty_pattern_options(rng, pattern):
+    """[(code, data)] holding at least one option with a zero-length payload.
+    nsid: the single NSID request; empties: 2-5 empty options (codes may repeat);
+    mixed: empty options scattered among non-empty ones; tail / head: an empty option
+    after / before the non-empty ones (next to the padding option / the RR header)."""
+
+    def empty():
+        c = rng.choice(_EMPTY_CODES + (rng.randint(26, 65000),))
+        return (c if c not in _SPECIAL_CODES else 65001, b"")
+
+    if pattern == "nsid":
+        return [(3, b"")]
+    if pattern == "empties":
+        return [empty() for _ in range(rng.randint(2, 5))]
+    full = [(c, v) for c, v in M.gen_options(rng, maxn=3, maxlen=12) if v]
+    if not full:
+        full = [(65001, bytes(rng.getrandbits(8) for _ in range(rng.randint(1, 9))))]
+    if pattern == "tail":
+        return full + [empty()]
+    if pattern == "head":
+        return [empty()] + full
+    out = list(full)
+    for _ in range(rng.randint(1, 3)):
+        out.insert(rng.randint(0, len(out)), empty())
+    return out
+
+
 class Subject:
     """One message + configuration, rendered without limit and analysed once."""
 
-    def __init__(self, sub, huge=False):
+    def __init__(self, sub, huge=False, variant=None):
+        """variant (None for the ordinary subjects): configuration of a subject of the
+        zero-length-option class, {"opts": pattern, "tsig": bool, "pad": int, "generic": bool};
+        EDNS is forced on, the option list is replaced by one of _EMPTY_PATTERNS, padding block
+        and TSIG are as stated, and the message is kept small (about 600-1700 octets) so that
+        every limit can be swept cheaply."""
         self.sub = sub
+        self.variant = variant
         rng = random.Random(sub)
         self.ok = False
         self.problem = None
@@ -80,6 +129,9 @@ class Subject:
             ms = (rng.randint(3, 8) * mult, rng.randint(2, 6) * mult, rng.randint(2, 6) * mult)
             want_edns = rng.random() < 0.7
             types = None
+            if variant is not None:
+                ms = (rng.randint(2, 4) * mult, rng.randint(1, 3) * mult, rng.randint(1, 3) * mult)
+                want_edns = True
             if huge:
                 ms = (180, 60, 40)
                 types = (16, 16, 16, 15, 2)
@@ -100,16 +152,20 @@ class Subject:
                 for s in m.sections
                 for r in s
             )
-            if body > 1000 or _attempt == 3:
+            if body > (1000 if variant is None else 760) or _attempt == 3:
                 break
             mult *= 2
         self.m = m
+        if variant is not None:
+            m.options = _empty_pattern_options(rng, variant["opts"])
         # configuration
         self.pad = 0
-        if m.edns >= 0 and rng.random() < 0.65:
+        if variant is not None:
+            self.pad = int(variant["pad"])
+        elif m.edns >= 0 and rng.random() < 0.65:
             self.pad = rng.choice((16, 16, 128, 128, 468, 468, 1, 2, 3, 7, 255, 256, 512, rng.randint(1, 600)))
         self.tsig = None
-        if rng.random() < 0.5:
+        if bool(variant["tsig"]) if variant is not None else rng.random() < 0.5:
             alg, macsize = rng.choice(_ALGS)
             names = [r.owner_abs for s in m.sections for r in s]
             r = rng.random()
@@ -178,6 +234,19 @@ class Subject:
         m = self.m
         try:
             self.msg, self.origin = M.build_library_message(m, pad=self.pad)
+            if self.variant is not None:
+                # the zero-length options are handed over as GenericOption (for NSID: unless
+                # the variant asks for the library's own NSIDOption class)
+                import dns.edns
+
+                opts = []
+                for code, data in m.options:
+                    if not data and (code != 3 or self.variant.get("generic", True)):
+                        opts.append(dns.edns.GenericOption(code, b""))
+                    else:
+                        opts.append(dns.edns.option_from_wire(code, data, 0, len(data)))
+                self.msg.use_edns(m.edns, m.ednsflags, m.payload, options=opts, pad=self.pad)
+                self.msg.set_rcode(m.rcode)
             self.key = None
             if self.tsig is not None:
                 t = self.tsig
@@ -230,6 +299,8 @@ class Subject:
         if len(self.tail_frames) != exp_tail:
             self.problem = "the unlimited rendering does not end with the configured OPT/TSIG"
             return
+        if self.variant is not None and not (_VARIANT_MIN <= len(self.full) <= _VARIANT_MAX):
+            return  # not a finding: the driver draws another subject
         self.ok = True
 
     # ------------------------------------------------------------------ judging one output
@@ -412,11 +483,18 @@ class Subject:
                 else:
                     good = rd == base
             if not good:
+                sig = {"site": "Renderer.add_opt", "class": "OPT differs"}
+                if got.rdtype == 41 and any(not v for _, v in m.options):
+                    # the same OPT with every zero-length option left out?
+                    rd = got.fields[0][1] if got.fields else b""
+                    stripped = b"".join(struct.pack("!HH", c, len(v)) + v for c, v in m.options if v)
+                    if rd == stripped or (self.pad and rd.startswith(stripped) and rd[len(stripped) : len(stripped) + 2] == b"\x00\x0c"):
+                        sig = SIG_EMPTY_DROPPED
                 _f(
                     out,
                     "C08.opt_tsig_kept",
                     f"OPT record in the output {got.describe()} is not the configured one {exp.describe()} (+padding {self.pad})",
-                    {"site": "Renderer.add_opt", "class": "OPT differs"},
+                    sig,
                 )
         if self.tsig:
             got = tailf[ti]
@@ -696,7 +774,7 @@ def _sweep(R, subj, limits, stats):
         if _stop(R):
             return False
         for pt in (False, True):
-            desc = {"sub": sub, "L": L, "pt": pt, "route": "max_size", "huge": False}
+            desc = {"sub": sub, "L": L, "pt": pt, "route": "max_size", "huge": False, "variant": subj.variant}
             findings, outcome = subj.check_limit(L, pt, "max_size", cache)
             stats[outcome] = stats.get(outcome, 0) + 1
             truncating = L < len(subj.full)
@@ -726,6 +804,7 @@ def _describe(subj):
         "options": len(subj.m.options),
         "pad": subj.pad,
         "tsig": None if subj.tsig is None else [l.decode("latin-1") for l in subj.tsig["name"]],
+        **({} if subj.variant is None else {"variant": subj.variant, "option_list": [[c, len(v)] for c, v in subj.m.options]}),
     }
 
 
@@ -908,7 +987,7 @@ def replay(data):
     desc = data["desc"]
     want_clause = data.get("clause")
     want_sig = data.get("sig") or {}
-    s = Subject(desc["sub"], huge=desc.get("huge", False))
+    s = Subject(desc["sub"], huge=desc.get("huge", False), variant=desc.get("variant"))
     if s.problem:
         return True, s.problem
     if desc.get("huge"):
